@@ -15,7 +15,7 @@ from ..core import Violation, Outcome, HarnessError
 ID = 'C06'
 TITLE = 'streams / multi-document sources / !include agree; lookup order; missing files; file-relative !path'
 RULE = ('a sequence of 2-5 documents (priority/!del/!merge tags, list-valued keys overridden across boundaries) and a random recursive split '
-        'plan (separate sources, multi-document files, top-level !include [..], several top-level includes, includes nested up to 3 levels) '
+        'plan (separate sources given as files or as yaml strings, multi-document files, top-level !include [..], several top-level includes, includes nested up to 3 levels) '
         'laid out over sub-directories with names relative to the including file or resolvable only through the working directory, or present '
         'in both with different content; plus key: !include [..]; plus a deleted subset of files; plus !path nodes of every reference '
         'point in files reached in different ways; non-trivial = plan depth >=2 with a list overridden across an include boundary, or a '
@@ -62,7 +62,10 @@ def _case(draw):
     case = {'mode': mode, 'docs': docs, 'abs_master': draw(st.booleans())}
     if mode in ('split', 'missing'):
         case['plan'] = draw(_plan(0, len(docs), 0, ctr))
-        case['top'] = draw(st.sampled_from(['file', 'file', 'sources']))
+        case['top'] = draw(st.sampled_from(['file', 'file', 'sources', 'mixed', 'mixed']))
+        # 'mixed': every top-level entry is its own source, some given as a file name and some as a yaml string (whose includes
+        # can only be found through the working directory - never next to a file given earlier to the same builder)
+        case['rawmask'] = [False] + draw(st.lists(st.booleans(), min_size=5, max_size=5))
         if mode == 'missing':
             case['drop'] = draw(st.lists(st.integers(0, 30), min_size=1, max_size=3))
     elif mode == 'keyinc2':
@@ -204,8 +207,9 @@ def run_case(case):
 
         if mode in ('split', 'missing'):
             plan = case['plan']
-            if case['top'] == 'sources' and all(e[0] == 'doc' for e in plan):
+            if case['top'] in ('sources', 'mixed') and all(e[0] == 'doc' for e in plan):
                 case = dict(case, top='file')
+            raw_flags = False
             master_dir = lay.tree
             if case['top'] == 'file':
                 body = emit_file(lay, texts, plan, master_dir, 0)
@@ -214,14 +218,32 @@ def run_case(case):
                 sources = [master if case['abs_master'] else os.path.relpath(master, lay.cwd)]
                 layout_txt = f'\nmaster file:\n{body}'
             else:
-                # every top-level entry is its own source (file)
+                # every top-level entry is its own source (file, or in 'mixed' also a yaml string)
                 sources = []
+                raw_flags = []
                 layout_txt = '\nsources:'
                 for n, e in enumerate(plan):
+                    as_string = case['top'] == 'mixed' and case.get('rawmask', [False] * 6)[n % 6]
+                    if as_string:
+                        before = len(lay.inc_nodes)
+                        body = emit_file(lay, texts, [e], lay.cwd, 0)
+                        sources.append(body)
+                        raw_flags.append(True)
+                        layout_txt += f'\n[yaml string]\n{body}'
+                        if e[0] == 'inc':
+                            # a file of the same name next to the sources given as files must not be picked up
+                            for target, rel_name, _ in lay.inc_nodes[-1]:
+                                decoy = os.path.join(master_dir, rel_name)
+                                if not os.path.exists(decoy):
+                                    lay.write(decoy, DECOY)
+                                    lay.conflicts += 1
+                            labels.add('string-source-with-include-after-file-source' if any(not r for r in raw_flags[:-1]) else 'string-source-with-include')
+                        continue
                     body = emit_file(lay, texts, [e], master_dir, 0)
                     p = os.path.join(master_dir, f'src{n}.yaml')
                     lay.write(p, body)
                     sources.append(p if case['abs_master'] else os.path.relpath(p, lay.cwd))
+                    raw_flags.append(False)
                     layout_txt += f'\n[{sources[-1]}]\n{body}'
             depth = plan_depth(plan)
             labels.add('plan-depth=%d' % depth)
@@ -229,7 +251,7 @@ def run_case(case):
                 labels.add('cwd-vs-sibling-conflict')
             nontrivial = (depth >= 2 and list_override) or lay.conflicts > 0
             if mode == 'split':
-                status, got = _build_in(lay.cwd, lambda: Config.build(*sources, raw_yaml=False))
+                status, got = _build_in(lay.cwd, lambda: Config.build(*sources, raw_yaml=raw_flags))
                 same_as_ref(status, got, f'split plan (top={case["top"]}, depth {depth})', layout_txt)
                 if status == 'ok' and 'decoy_marker' in got:
                     raise Violation(f'C06: a file from the working directory was used although the including file has a sibling of that name{src}{layout_txt}')
@@ -249,7 +271,7 @@ def run_case(case):
                     for p in (f[0], f[2]):
                         if p and os.path.exists(p):
                             os.unlink(p)
-                status, got = _build_in(lay.cwd, lambda: Config.build(*sources, raw_yaml=False))
+                status, got = _build_in(lay.cwd, lambda: Config.build(*sources, raw_yaml=raw_flags))
                 if status == 'ok':
                     raise Violation(f'C06: files {drop} are missing but the build succeeded: {O.to_builtin(got)!r}{src}{layout_txt}')
                 if type(got).__name__ != 'PreprocessError':
